@@ -374,11 +374,28 @@ def job_sampling(tier):
 
             def run(idx=idx):
                 _assume_edges(B)
-                a = vv.vario_estimate([list(r) for r in X], list(F[0]), list(B), sampling_size=len(idx), sampling_seed=1234, return_counts=True)
+                pre = []
+                orig_pre = vv.remove_trend_norm_mean
+
+                def spy_pre(*a_, **kw_):
+                    fld_ = kw_.get("field", a_[1] if len(a_) > 1 else None)
+                    pre.append(rnp.array(fld_, dtype=object).copy())
+                    return orig_pre(*a_, **kw_)
+
+                vv.remove_trend_norm_mean = spy_pre
+                try:
+                    a = vv.vario_estimate([list(r) for r in X], list(F[0]), list(B), sampling_size=len(idx), sampling_seed=1234, return_counts=True)
+                finally:
+                    vv.remove_trend_norm_mean = orig_pre
+                seen["pre"] = pre
                 b = vv.vario_estimate([[X[a_][i] for i in idx] for a_ in range(2)], [F[0][i] for i in idx], list(B), return_counts=True)
                 return a, b
 
             out += _relate(f"C09/sampling/idx{idx}", run, T, wv, rb)
+            # mean / trend removal, normalisation and a normaliser fit act on the sub-sample (what the estimate is made of)
+            pre = seen.get("pre") or []
+            okpre = len(pre) == 1 and pre[0].shape[-1] == len(idx) and all(pre[0].reshape(-1)[q] is F[0][i] for q, i in enumerate(idx))
+            out.append(rec(f"C09/sampling/idx{idx}/pre-processing (mean, trend, normaliser and its fit) is handed exactly the sub-sampled values", "unsat" if okpre else "sat", vacuity="sat", witness={}, replay={"kind": "sampling", "inputs": {"idx": idx, "values": {}}}, detail=str([p_.shape for p_ in pre])))
             okflag = seen.get("replace") is False and seen.get("seed") == 1234 and seen.get("a") == list(range(n)) and seen.get("size") == len(idx)
             out.append(rec(f"C09/sampling/idx{idx}/drawn without replacement from range(n) with the given seed", "unsat" if okflag else "sat", vacuity="sat", witness={}, replay={"kind": "sampling", "inputs": {"idx": idx, "values": {}}}, detail=str({k: v for k, v in seen.items() if k != "idx"})))
     finally:
@@ -543,7 +560,20 @@ def replay_sampling(inputs):
     b = gs.vario_estimate(X[:, idx], F[idx], B, return_counts=True)
     a2 = gs.vario_estimate(X, F, B, sampling_size=size, sampling_seed=1234, return_counts=True)
     ok = np.allclose(a[1], b[1]) and list(a[2]) == list(b[2]) and np.allclose(a[1], a2[1]) and len(set(idx)) == size
-    return bool(ok), f"sampled estimate={a[1]} subset estimate={b[1]} idx={idx}"
+    # a fitted normaliser is fitted to the sub-sample: seeded down-sampling == estimating on that subset
+    rng = np.random.RandomState(7)
+    Xb = rng.uniform(0, 10, (2, 60))
+    Fb = np.exp(0.8 * rng.normal(size=60)) + 0.2
+    Bb = [0.0, 2.0, 4.0, 6.0]
+    det = ""
+    for nz in (gs.normalizer.BoxCox, gs.normalizer.YeoJohnson):
+        c1 = gs.vario_estimate(Xb, Fb, Bb, sampling_size=25, sampling_seed=99, normalizer=nz, fit_normalizer=True)
+        ib = np.random.RandomState(99).choice(np.arange(60), 25, replace=False)
+        c2 = gs.vario_estimate(Xb[:, ib], Fb[ib], Bb, normalizer=nz, fit_normalizer=True)
+        if not (np.allclose(c1[1], c2[1], rtol=1e-9) and np.isclose(c1[2].lmbda, c2[2].lmbda, rtol=1e-9)):
+            ok = False
+            det += f" {nz.__name__}: fitted lmbda with sampling {c1[2].lmbda} vs on the subset {c2[2].lmbda}"
+    return bool(ok), f"sampled estimate={a[1]} subset estimate={b[1]} idx={idx}{det}"
 
 
 def replay_dir_test_rotation(inputs):
